@@ -8,7 +8,7 @@ CONSTANTS
   PastEndRule = "ge"
   CompletionOrder = "rewrite-publish"
   Withdrawals = TRUE
-  ConcurrentWithdrawals = FALSE
+  ConcurrentWithdrawals = TRUE
   HostReads = "snapshot"
   Reannouncements = TRUE
   ReannounceRule = "atomic"
